@@ -62,10 +62,10 @@ fn spec_patterns_of_file(text: &str) -> Vec<String> {
 /// padded patterns, comments, indented comments, blank and whitespace-only lines), split over one to three `-E`
 /// files (the last one possibly without any pattern) and combined with `-e`.  `backup`, `ls`, `diff` and `restore`
 /// with those options must do what the library does with the pattern list the README's rule yields.
-fn exclude_file_probe(prop: &str, rng: &mut Rng, report: &mut Report) {
+fn exclude_file_probe(prop: &str, rounds: usize, rng: &mut Rng, report: &mut Report) {
     const PATTERN_LINES: &[&str] = &[".#*", "report#*", "/cache", "*.o", "  *.o  ", "\t/data/report.txt", "/keep?.txt", "Track #??.wav", "main.*", "/src/main.c", "data/cache"];
     const OTHER_LINES: &[&str] = &["", "   ", "\t", " \t ", "# a comment", "   # an indented comment", "#", "#*.txt", "  #/keep1.txt"];
-    for round in 0..4 {
+    for round in 0..rounds {
         let work = tempfile::tempdir().unwrap();
         let w = work.path();
         let src = w.join("src");
@@ -89,7 +89,7 @@ fn exclude_file_probe(prop: &str, rng: &mut Rng, report: &mut Report) {
                 text.push_str(line);
                 text.push('\n');
             }
-            if round == 3 && i == 0 {
+            if round % 4 == 3 && i == 0 {
                 text = " \n\t\n# nothing but blanks and comments\n   # here\n".to_string();
             }
             files.push(text);
@@ -169,17 +169,18 @@ fn exclude_file_probe(prop: &str, rng: &mut Rng, report: &mut Report) {
     }
 }
 
-pub fn run(prop: &str, _tier: &str, seed: u64, report: &mut Report) {
+pub fn run(prop: &str, tier: &str, seed: u64, report: &mut Report) {
     if bin().is_none() {
         report.hit("cli:binary-not-available");
         report.notes.push("CONSERVE_BIN not set or missing: the command-line layer was not exercised".into());
         return;
     }
     let mut rng = Rng::new(seed ^ 0xC11);
+    let thorough = tier == "thorough";
     if matches!(prop, "C01" | "C02" | "C15" | "C18") {
-        exclude_file_probe(prop, &mut rng, report);
+        exclude_file_probe(prop, if thorough { 24 } else { 4 }, &mut rng, report);
     }
-    for round in 0..3 {
+    for round in 0..(if thorough { 12 } else { 3 }) {
         let st = setup(&mut rng);
         let w = st.work.path();
         let (a_cli, a_lib) = (w.join("a-cli"), w.join("a-lib"));
